@@ -98,7 +98,7 @@ def run_tlc(module: str, cfg: str | None = None, *, lazy_cases: bool = False, wo
     own = scratch is None
     scratch = scratch or Path(tempfile.mkdtemp(prefix="tlc-", dir=os.environ.get("TMPDIR", "/var/tmp")))
     meta = Path(tempfile.mkdtemp(prefix=f"meta-{cfg}-", dir=str(scratch)))      # unique: the same configuration may run concurrently (C18 batches)
-    java = ["java", "-XX:+UseParallelGC", "-Xmx" + heap, "-Xss64m"]
+    java = ["java", "-XX:+UseParallelGC", "-Xmx" + heap, "-Xss64m", f"-Djava.io.tmpdir={meta}"]   # TLC's own temporary directories go with the metadir
     if deque:
         java.append("-Dtlc2.tool.queue.IStateQueue=StateDeque")
     cmd = java + ["-cp", TLC_JAR, "tlc2.TLC", "-workers", str(workers if workers != "auto" else NCPU),
